@@ -611,7 +611,7 @@ impl<E: Elem> TableDrv<E> {
                         });
                         crate::check!(hit.is_some() == (k < len), "table iter().nth({}) is_some = {} with len() {}", k, hit.is_some(), len);
                         if let Some(e) = hit {
-                            crate::check!(self.model.contains(&e), "table iter().nth({}) yielded {:?} which the model does not hold", k, e);
+                            crate::check!(!self.compare || self.model.contains(&e), "table iter().nth({}) yielded {:?} which the model does not hold", k, e);
                         }
                         let a = self.t.iter().skip(k).count();
                         crate::check!(a == len.saturating_sub(k), "table iter().skip({}).count() = {} with len() {}", k, a, len);
